@@ -89,6 +89,25 @@ structure CInv (r : C_librdsparser) : Prop where
   lastRt : r.last_rt_flag = -1 ∨ r.last_rt_flag = 0 ∨ r.last_rt_flag = 1
   ud : 0 ≤ r.user_data
 
+/-- two C states agree on every field the abstraction and the invariant look at (a field the library may gain later —
+a counter, a cache — is not one of them) -/
+def SameModelled (x y : C_librdsparser) : Prop :=
+  x.buffer = y.buffer ∧ x.ps = y.ps ∧ x.rt = y.rt ∧ x.ptyn = y.ptyn ∧ x.progressive = y.progressive ∧
+  x.correction = y.correction ∧ x.user_data = y.user_data ∧ x.last_rt_flag = y.last_rt_flag ∧
+  x.callback_pi = y.callback_pi ∧ x.callback_pty = y.callback_pty ∧ x.callback_tp = y.callback_tp ∧
+  x.callback_ta = y.callback_ta ∧ x.callback_ms = y.callback_ms ∧ x.callback_ecc = y.callback_ecc ∧
+  x.callback_country = y.callback_country ∧ x.callback_af = y.callback_af ∧ x.callback_ps = y.callback_ps ∧
+  x.callback_rt = y.callback_rt ∧ x.callback_ptyn = y.callback_ptyn ∧ x.callback_ct = y.callback_ct
+
+theorem SameModelled.abs_eq {x y : C_librdsparser} (h : SameModelled x y) : abs x = abs y := by
+  obtain ⟨h1, h2, h3, h4, h5, h6, h7, h8, c1, c2, c3, c4, c5, c6, c7, c8, c9, c10, c11, c12⟩ := h
+  simp only [abs, absSet, absCbs, h1, h2, h3, h4, h5, h6, h7, h8, c1, c2, c3, c4, c5, c6, c7, c8, c9, c10, c11, c12]
+
+theorem SameModelled.inv {x y : C_librdsparser} (h : SameModelled x y) (hy : CInv y) : CInv x := by
+  obtain ⟨h1, h2, h3, h4, h5, h6, h7, h8, _⟩ := h
+  exact ⟨h1 ▸ hy.used, h1 ▸ hy.temp, h1 ▸ hy.ext, h2 ▸ hy.ps, h3 ▸ hy.rtLen, h3 ▸ hy.rt0, h3 ▸ hy.rt1, h4 ▸ hy.ptyn,
+    h5 ▸ hy.progLen, h5 ▸ hy.prog, h6 ▸ hy.corrLen, h6 ▸ hy.corr, h8 ▸ hy.lastRt, h7 ▸ hy.ud⟩
+
 /-- the group as the C API receives it -/
 def dataOf (g : Group) : List Int := [(g.a : Int), g.b, g.c, g.d]
 def errorsOf (g : Group) : List Int := [(g.ea : Int), g.eb, g.ec, g.ed]
